@@ -497,6 +497,7 @@ class C07(FsScenario):
         if rng.random() < 0.25:
             case["ops"].append(["drain"])
             case["ops"].append(["rmroot"])
+            case["reschedule_after_rmroot"] = rng.random() < 0.5
         elif rng.random() < 0.2:
             case["early_stop"] = True
             case["sched"]["line"] = True
@@ -519,9 +520,21 @@ class C07(FsScenario):
             pass
         sim.wait_quiescent()
         res["events_after_rmroot"] = [e["shape"] for e in run.events[n0:]]
+        if run.case.get("reschedule_after_rmroot") and "add_fail" not in run.case["faults"]:
+            # the application reacts to DirDeleted(root): the directory is back, so it schedules the same watch again
+            n1 = len(run.events)
+            try:
+                run.observer.schedule(run.handlers[0], run.watch_path(), recursive=run.recursive)
+                with open(run.real("root/again2"), "w"):
+                    pass
+                sim.wait_quiescent()
+                res["rescheduled"] = [e["shape"] for e in run.events[n1:] if e["h"] == 0]
+            except OSError as e:
+                res["rescheduled_exc"] = repr(e)
         import shutil
 
         shutil.rmtree(run.real("root"))
+        sim.wait_quiescent()
 
     def judge(self, run, res, sim, verdict):
         v = generic_violations("C07", sim, verdict, res, run)
@@ -549,6 +562,10 @@ class C07(FsScenario):
                 v.append(Violation("root-deleted", "C07:events-after-root-deleted", f"{res['events_after_rmroot'][:5]}"))
             if res.get("open_fds"):
                 v.append(Violation("root-deleted", "C07:descriptors-open-after-root-deleted-and-stop", f"{res['open_fds']}"))
+            if "rescheduled" in res and not any(sh[0] == "created" and sh[2] == "root/again2" for sh in res["rescheduled"]):
+                v.append(Violation("root-deleted", "C07:watch-scheduled-again-after-root-came-back-reports-nothing", f"schedule() returned normally, then root/again2 was created; delivered {res['rescheduled'][:4]}"))
+            if res.get("rescheduled_exc"):
+                v.append(Violation("root-deleted", "C07:schedule-after-root-came-back-raised", res["rescheduled_exc"]))
             if res.get("open_fds_after_rmroot") and not res["alive_after_rmroot"]:
                 # "stops cleanly": the emitter's own shutdown releases its descriptors, not a later stop()/unschedule()
                 v.append(Violation("root-deleted", "C07:descriptors-open-after-root-deleted", f"{res['open_fds_after_rmroot']}"))
